@@ -84,3 +84,10 @@ Theorem C01_no_cell_of_the_wrong_class_in_expressions : forall ped repl lim fuel
   fst (ev_eval (evs_at ped repl lim fuel) n c s) <> Fail (FCrash "cell payload disagrees with its type").
 Proof. exact eval_never_finds_a_cell_of_the_wrong_class. Qed.
 Print Assumptions C01_no_cell_of_the_wrong_class_in_expressions.
+
+(* likewise the abort of Variable::set: a field-wise or element-wise copy (record assignment, whole-array assignment) never meets a
+   destination of another kind than the value copied into it; the layout comparison made before the copy has established it *)
+Theorem C01_no_payload_reinterpreted_by_a_copy : forall ped repl lim fuel bl c s, Inv s ->
+  fst (run_block ped repl lim fuel bl c s) <> Fail (FCrash "Variable::set: payload reinterpreted as another type").
+Proof. exact run_block_never_reinterprets_a_payload. Qed.
+Print Assumptions C01_no_payload_reinterpreted_by_a_copy.
